@@ -41,6 +41,19 @@ func runUntrusted(payload string) string {
 	go func() {
 		class := "ok"
 		e, p := safely(func() error {
+			if mode == "t" || mode == "w" {
+				// into the JSON encoder with indentation (a tab / two spaces per level), from either format
+				eo := json.EncodeOptions{Line: []byte{'\n'}, Indent: []byte{'\t'}}
+				if mode == "w" {
+					eo = json.EncodeOptions{Indent: []byte("  ")}
+				}
+				var w bytes.Buffer
+				var src shared.TokenSource = json.NewDecoder(bytes.NewReader(in))
+				if fmtc == "c" {
+					src = cbor.NewDecoder(cbor.DecodeOptions{}, bytes.NewReader(in))
+				}
+				return shared.TokenPump{TokenSource: src, TokenSink: json.NewEncoder(&w, eo)}.Run()
+			}
 			if mode == "p" {
 				var w bytes.Buffer
 				if fmtc == "c" {
@@ -163,10 +176,33 @@ func genUntrusted(g *G, tier string, emit func(string)) {
 			em("c", "u", tgt, a)
 		}
 		em("c", "p", targets[0], a)
+		em("c", "t", targets[0], a)
+		em("c", "w", targets[0], a)
+	}
+	// nesting of every depth to 300 (then coarser) through the pumps with indentation: a pre-sized indent buffer overflows
+	// at one particular depth
+	for d := 1; d <= 1200; d++ {
+		if d > 300 && d%50 != 0 {
+			continue
+		}
+		doc := append(bytes.Repeat([]byte{0x81}, d-1), 0x80)
+		mix := append(append([]byte{}, bytes.Repeat([]byte{0xa1, 0x61, 0x6b, 0x9f}, d/2)...), 0xf6)
+		for i := 0; i < d/2; i++ {
+			mix = append(mix, 0xff)
+		}
+		jdoc := []byte(strings.Repeat("[", d) + strings.Repeat("]", d))
+		for _, mode := range []string{"p", "t", "w"} {
+			em("c", mode, targets[0], doc)
+			em("c", mode, targets[0], mix)
+			em("j", mode, targets[0], jdoc)
+		}
 	}
 	// huge declared counts, nested, into targets whose elements are wide: nothing may be sized from a declared length
-	wide := []string{"(env) (atlas 0) (sl (ar 32 i64))", "(env) (atlas 0) (sl (sl (ar 16 i64)))", "(env) (atlas 0) a", "(env) (atlas 0) (sl a)", "(env) (atlas 0) (mp s (sl (ar 32 i64)))"}
-	for _, cnt := range []uint64{1 << 20, 1<<20 + 1, 1 << 24, 1 << 32, 1 << 40, 1<<63 - 1} {
+	// (mode U: these inputs are at most some seventy bytes long and are held to the tight bound, so that a pre-sizing that is
+	// clamped by an entry count — a few thousand entries of a wide element — shows as well as an unclamped one)
+	wide := []string{"(env) (atlas 0) (sl (ar 32 i64))", "(env) (atlas 0) (sl (sl (ar 16 i64)))", "(env) (atlas 0) a", "(env) (atlas 0) (sl a)", "(env) (atlas 0) (mp s (sl (ar 32 i64)))",
+		"(env) (atlas 0) (sl (ar 512 i64))", "(env) (atlas 0) (sl (sl (ar 512 i64)))", "(env) (atlas 0) (mp s (ar 512 i64))", "(env) (atlas 0) (sl (ar 512 s))"}
+	for _, cnt := range []uint64{1 << 10, 1 << 12, 1 << 16, 1<<16 + 1, 1 << 20, 1<<20 + 1, 1 << 24, 1 << 32, 1 << 40, 1<<63 - 1} {
 		for depth := 1; depth <= 7; depth++ {
 			var b []byte
 			for d := 0; d < depth; d++ {
@@ -174,9 +210,10 @@ func genUntrusted(g *G, tier string, emit func(string)) {
 				b = append(b, be(8, cnt)...)
 			}
 			for _, tgt := range wide {
-				em("c", "u", tgt, b)
+				em("c", "U", tgt, b)
 			}
-			em("c", "u", wide[4], append([]byte{0xbb}, append(be(8, cnt), append([]byte{0x61, 0x6b}, b...)...)...))
+			em("c", "U", wide[4], append([]byte{0xbb}, append(be(8, cnt), append([]byte{0x61, 0x6b}, b...)...)...))
+			em("c", "U", wide[7], append([]byte{0xbb}, append(be(8, cnt), append([]byte{0x61, 0x6b}, b...)...)...))
 		}
 	}
 	// every half float (zeros, subnormals, infinities, NaNs), every initial byte alone and followed by zeros,
